@@ -180,6 +180,44 @@ example : (tuc2 (K := ℚ) ⟨1, 0, ⟨1/1000, 1⟩⟩ ⟨[⟨⟨0, 0⟩, ⟨0, 
     (99984769515 / 100000000000) (1 / 1000000)).1 = true ∧ (⟨0, 1⟩ : V2 ℚ).dot ⟨0, 1⟩ = 1 := by
   norm_num [tuc2, tucLoop2, Iso2.rot, Iso2.act, V2.dot, V2.sub, V2.add, V2.smul, V2.normSq]
 
+
+/-- **C14 (a) with the documented constants.**  `try_update_contacts` (the wrapper the cuboid/cuboid and
+cuboid/triangle generators call) keeps a manifold only if the stale normals are opposite up to the documented
+1 degree — `−n1·(pos12·n2) ≥ 0.99984769515 = COS_1_DEGREES` — and every contact moved by at most
+`√1e-6 = 1e-3`.  The constants are part of the model, so the bit-exact leg `tuc3_default`/`tuc2_default`
+(rotations swept through 0.5°…6° about a pivot next to the contacts) pins them to the code. -/
+theorem tuc3Default_sound (pos12 : Iso3 K) (m : Manifold3 K)
+    (hn : letI := fieldNum K sq; m.n1.dot m.n1 = 1)
+    (h : letI := fieldNum K sq; (tuc3Default pos12 m).1 = true) :
+    letI := fieldNum K sq
+    ((99984769515 / 100000000000 : ℚ) : K) ≤ -(m.n1.dot (pos12.rot m.n2)) ∧
+      List.Forall₂ (Updated3 sq pos12 m.n1 ((1 / 1000000 : ℚ) : K)) m.points (tuc3Default pos12 m).2.points := by
+  obtain ⟨_, _, _, h4, h5⟩ := tuc3_true_sound sq pos12 m _ _ hn h
+  refine ⟨h4, ?_⟩
+  have : @distSqThreshold K (fieldNum K sq) = ((1 / 1000000 : ℚ) : K) := by
+    simp only [distSqThreshold, fieldNum_lit]; norm_num
+  rw [← this]; exact h5
+
+theorem tuc2Default_sound (pos12 : Iso2 K) (m : Manifold2 K)
+    (hn : letI := fieldNum K sq; m.n1.dot m.n1 = 1)
+    (h : letI := fieldNum K sq; (tuc2Default pos12 m).1 = true) :
+    letI := fieldNum K sq
+    ((99984769515 / 100000000000 : ℚ) : K) ≤ -(m.n1.dot (pos12.rot m.n2)) ∧
+      List.Forall₂ (Updated2 sq pos12 m.n1 ((1 / 1000000 : ℚ) : K)) m.points (tuc2Default pos12 m).2.points := by
+  obtain ⟨_, _, _, h4, h5⟩ := tuc2_true_sound sq pos12 m _ _ hn h
+  refine ⟨h4, ?_⟩
+  have : @distSqThreshold K (fieldNum K sq) = ((1 / 1000000 : ℚ) : K) := by
+    simp only [distSqThreshold, fieldNum_lit]; norm_num
+  rw [← this]; exact h5
+
+/-- non-vacuity and sharpness at the documented angle: a rotation whose cosine is `0.9999 ≥ COS_1_DEGREES`
+(≈ 0.81°) about the contact point is kept, one with cosine `0.9996 < COS_1_DEGREES` (≈ 1.62°) is not — although
+no contact point moves at all. -/
+example : (tuc2Default (K := ℚ) ⟨9999/10000, 0, ⟨0, 0⟩⟩ ⟨[⟨⟨0, 0⟩, ⟨0, 0⟩, 0⟩], ⟨0, 1⟩, ⟨0, -1⟩⟩).1 = true ∧
+    (tuc2Default (K := ℚ) ⟨9996/10000, 0, ⟨0, 0⟩⟩ ⟨[⟨⟨0, 0⟩, ⟨0, 0⟩, 0⟩], ⟨0, 1⟩, ⟨0, -1⟩⟩).1 = false := by
+  norm_num [tuc2Default, tuc2, tucLoop2, cos1deg, distSqThreshold, lit, Num.ofRat, Iso2.rot, Iso2.act, V2.dot,
+    V2.sub, V2.add, V2.smul, V2.normSq]
+
 /-! ## `find_deepest_contact` -/
 
 private theorem deepestGo_spec (all : List K) :
